@@ -162,7 +162,18 @@ fn real_compile(sd: &StackD, cd: &CellD) -> Result<Vec<ElemD>, String> {
     for (n, c) in &cd.assigns { lay.assignments.push(Assign::new(n.clone(), TrackCross::from_parts(c[0], c[1], c[2], c[3]))); }
     let mut top = t::cell::Cell::new("top");
     top.layout = Some(lay);
-    lib.cells.add(top);
+    // a third of the cells are NOT registered in the library: `top` is reachable only through an instance of a registered
+    // wrapper twice its size (as the crate's ring-oscillator examples build their unit cells); it is compiled all the same
+    if (cd.cuts.len() + cd.assigns.len() + cd.insts.len()) % 3 == 1 {
+        let tp = Ptr::new(top);
+        let mut outer = t::layout::Layout::new("outer", cd.metals, outline(2 * cd.ox, 2 * cd.oy)?);
+        outer.instances.add(t::instance::Instance { inst_name: "itop".into(), cell: tp, loc: (0isize, 0isize).into(), reflect_horiz: false, reflect_vert: false });
+        let mut oc = t::cell::Cell::new("outer");
+        oc.layout = Some(outer);
+        lib.cells.add(oc);
+    } else {
+        lib.cells.add(top);
+    }
     let rawlib = lib.to_raw(vstack).map_err(|_| "err".to_string())?;
     let rl = rawlib.read().map_err(|_| "err")?;
     let mut out = vec![];
